@@ -288,3 +288,38 @@ def p_ascii_ignore(I, args, kwargs, node):
 
 
 PRIMS.update({'re_nomatch': p_re_nomatch, 're_group': p_re_group, 'ascii_ignore': p_ascii_ignore})
+
+
+def _ext_exc(I, name):
+    for r in I.ghost.get('ext_trace', []):
+        if r['name'] == name and r.get('exc') is not None:
+            return r['exc']
+    return None
+
+
+def p_raised_by(I, args, kwargs, node):
+    """the exception object the named external call raised on this path"""
+    e = _ext_exc(I, _m.concretise(args[0]))
+    if e is None:
+        from .values import VExc
+        return VExc(ValueError, [])
+    return e
+
+
+def p_raised_is_exception(I, args, kwargs, node):
+    e = _ext_exc(I, _m.concretise(args[0]))
+    if e is None:
+        return VBool(True)
+    return VBool(_m.sym_exc_isinstance(e, [Exception]))
+
+
+def p_raised_is(I, args, kwargs, node):
+    import builtins
+    e = _ext_exc(I, _m.concretise(args[0]))
+    if e is None:
+        return VBool(False)
+    return VBool(_m.sym_exc_isinstance(e, [getattr(builtins, _m.concretise(args[1]))]))
+
+
+PRIMS.update({'raised_by': p_raised_by, 'raised_is_exception': p_raised_is_exception,
+              'raised_is': p_raised_is})
